@@ -44,7 +44,7 @@ Inductive cont :=
 | KTop                                                               (* the answer hand-off of QueryContext *)
 | KCollect (tmpl : term) (cid : Z)                                   (* FindAll's inner continuation *)
 | KBag (witness : term) (setof : bool) (inst : term) (s : Z) (k : cont)  (* collectionOf's continuation *)
-| KRetractDel (idx : nat) (rid uid : Z) (k : cont)                   (* Retract's delete-then-continue *)
+| KRetractDel (cid uid : Z) (k : cont)                               (* Retract's delete-then-continue *)
 | KCallNth (cnt : Z) (nth : term) (pid : Z) (k : cont)
 | KCatchExit (pid : Z) (k : cont).                                  (* Catch: the goal has exited *)
 
@@ -500,19 +500,17 @@ with apply_cont (fuel : nat) (k : cont) (e : env) (st : state) {struct fuel} : p
               delay (map (fun g => ThGroup witness (fst g) (snd g) setof inst k' e) groups) st
           | None => (PErr (EPanic "bag"), st)
           end
-      | KRetractDel idx rid uid k' =>
-          let deleted := get_deleted st rid in
-          let j := Z.of_nat idx - Z.of_nat deleted in
+      | KRetractDel cid uid k' =>
+          (* the clause itself is looked up (by identity) in the procedure object the call started with *)
           match find (fun p => Z.eqb (pr_uid p) uid) (s_db st) with
           | Some p =>
-              match delete_at j (pr_clauses p) with
-              | Some cs' =>
-                  let p' := mkProc (pr_name p) (pr_arity p) (pr_uid p) (pr_dynamic p) (pr_public p) cs' in
-                  apply_cont f k' e (put_deleted (set_db st (update_proc (s_db st) p')) rid (S deleted))
-              | None => (PErr (EPanic "slice bounds out of range"), st)
-              end
-          | None => (* the procedure object was abolished meanwhile: the update is invisible *)
-              apply_cont f k' e (put_deleted st rid (S deleted))
+              if existsb (fun c => Z.eqb (c_cid c) cid) (pr_clauses p)
+              then
+                let p' := mkProc (pr_name p) (pr_arity p) (pr_uid p) (pr_dynamic p) (pr_public p)
+                                 (filter (fun c => negb (Z.eqb (c_cid c) cid)) (pr_clauses p)) in
+                apply_cont f k' e (set_db st (update_proc (s_db st) p'))
+              else (PBool false, st)           (* already removed by someone else *)
+          | None => (PBool false, st)          (* the procedure object is no longer in the database *)
           end
       | KCallNth cnt nth pid k' => (PErr (EPanic "call_nth unmodelled"), st)
       | KCatchExit pid k' =>
@@ -590,7 +588,7 @@ with call_goal (fuel : nat) (g : term) (k : cont) (e : env) (st : state) {struct
           let fvs := free_vars e g' in
           let args := map Var fvs in
           let t_top := Cmp ":-" [tuple_t args; g'] in
-          match compile (walk e t_top) t_top with
+          match compile (walk e t_top) (walk e t_top) with
           | inl cs => clauses_call cs args k e st
           | inr culprit => (PErr (type_err "callable" (walk e culprit)), st)
           end
@@ -688,10 +686,9 @@ with builtin (fuel : nat) (name : string) (args : list term) (k : cont) (e : env
                   | Some p =>
                       if negb (pr_dynamic p) then (PErr (perm_err "modify" "static_procedure" (pi_t fn (Z.of_nat (List.length a0)))), st)
                       else
-                        let '(rid, st1) := fresh_id st in
-                        let ths := map (fun ic => ThUnify t' (rulify e (c_raw (snd ic))) (KRetractDel (fst ic) rid (pr_uid p) k) e)
-                                       (combine (seq 0 (List.length (pr_clauses p))) (pr_clauses p)) in
-                        delay ths (put_deleted st1 rid O)
+                        let ths := map (fun c => ThUnify t' (rulify e (c_raw c)) (KRetractDel (c_cid c) (pr_uid p) k) e)
+                                       (pr_clauses p) in
+                        delay ths st
                   end
               end
           | _ => (PErr (EPanic "rulify"), st)
@@ -850,8 +847,9 @@ with assert_clause (fuel : nat) (front : bool) (t : term) (k : cont) (e : env) (
                           let p := mkProc fn ar uid true true [] in
                           (p, set_db s1 (s_db s1 ++ [p]))
                 end in
-              let t_top := resolve e t in
-              match compile (walk e t) t_top with
+              (* the stored term gets its own variables (renamedCopy in assertMerge) *)
+              let '(rawc, st1) := renamed_copy e t st1 in
+              match compile (walk e t) rawc with
               | inr culprit => (PErr (type_err "callable" (walk e culprit)), st1)
               | inl cs =>
                   if is_builtin fn ar || negb (pr_dynamic p)
@@ -875,7 +873,7 @@ End Machine.
 (** ---- running a query ------------------------------------------------------------------------ *)
 
 Definition init_state (db : list proc) (nextv : Z) (qvars : list term) (limit : nat) (polls : option nat) : state :=
-  mkSt nextv 100 db [] limit qvars [] [] polls.
+  mkSt nextv 100000 db [] limit qvars [] [] polls.
 
 (** QueryContext + consumer that takes up to [limit] answers *)
 Definition run_query (fuel : nat) (db : list proc) (nextv : Z) (q : term) (qvars : list term) (limit : nat)
